@@ -16,8 +16,10 @@ Local Open Scope N_scope.
 Definition src_fx : bool := fx_or_unfixed gen_dispatch.
 (** Is `can_enter` set back when a collector callback unwinds?  (get_default_slow's guard as read; Dispatch/Reentry.v) *)
 Definition src_unwind_resets : bool := unwind_resets_of_shape gen_dispatch.
+(** Is a scope opened while the thread-local is already destroyed counted in SCOPED_COUNT?  (State::set_default as read) *)
+Definition src_dead_counts : bool := dead_counts_of_shape gen_dispatch.
 Definition src_xrun_case (smax : N) (fs : list fspec) (h : list xop) : list (list N) :=
-  xrun_case src_fx src_unwind_resets smax fs h.
+  xrun_case src_fx src_unwind_resets src_dead_counts smax fs h.
 Definition src_run_case (smax : N) (fs : list fspec) (h : list op) : list (list N) := run_case src_fx smax fs h.
 (** The facts the drivers print next to the tie (evaluated by vm_compute on every run). *)
 Definition src_summary : list N :=
